@@ -98,7 +98,9 @@ fn chain_text(k: &str, p: usize, n: usize, depth: usize, leaf: &str, bracketless
         if bracketless {
             s = format!("{{\"{}\":{}}}", k, s);
         } else {
-            let mut args: Vec<String> = spaces::c03::benign(k, n).iter().map(|v| v.to_string()).collect();
+            // collections of the higher-order operators hold one element: with two, a chain in the
+            // expression position needs 2^depth evaluations by the very semantics of the rule
+            let mut args: Vec<String> = spaces::c03::benign(k, n).iter().map(|v| if v.is_array() { "[1]".to_string() } else { v.to_string() }).collect();
             args[p] = s;
             s = format!("{{\"{}\":[{}]}}", k, args.join(","));
         }
